@@ -14,10 +14,10 @@ Delim1 == <<4>>
 Delim2 == <<4, 4>>
 MCDefaultDelim == <<4>>
 
-Alphabet == IF Tier = "quick" THEN {1, 2, 3, 4} ELSE {1, 2, 3, 4, 5}
-Delims == IF Tier = "quick" THEN {Delim1, Delim2} ELSE {Delim1, Delim2, <<5>>}
+Alphabet == {1, 2, 3, 4}
+Delims == {Delim1, Delim2}
 \* CURIE prefixes never contain a delimiter character (quantifier of C02/C03)
-PPool == IF Tier = "quick" THEN {<<>>, <<1>>, <<2>>} ELSE {<<>>, <<1>>, <<2>>, <<3>>, <<1, 3>>}
+PPool == IF Tier = "quick" THEN {<<>>, <<1>>, <<2>>} ELSE {<<>>, <<1>>, <<2>>, <<3>>}
 \* URI prefixes: empty, a nested chain a < ab < aba, a sibling, and one that makes
 \* "a:b" both a CURIE and a URI
 UPool == IF Tier = "quick" THEN {<<>>, <<1>>, <<1, 3>>, <<1, 4>>}
